@@ -233,6 +233,9 @@ def run(tier, seed, fold):
     shards = driver.run_shards("C12", os.path.join(bindir, SPEC["bin"]), t["shards"], seed, tier, t["budget_s"], extra=extra, events=True)
     fold.add_shards(shards)
     post(shards, fold, tier, seed)
+    if tier == "thorough":
+        # Miri: undefined behaviour / invalid values in everything the parser reaches
+        driver.miri_run("C12", "zip321", seed, fold, procs=12, ops=250)
 
 
 def post(shards, fold, tier, seed):
